@@ -140,8 +140,19 @@ struct br_ptr : cc::bronson_avltree::traits { typedef Less less; typedef cds::at
 
 void gen_skip(Rng& r, Program& p, int tier, const std::string&) { GenCfg g; g.caps = CAPS_TREE; g.min_hazards = 70; g.nkeys_hot = 4; gen_program(r, p, tier, g); p.set("level_mode", r.below(3)); }
 void gen_ellen(Rng& r, Program& p, int tier, const std::string&) { GenCfg g; g.caps = CAPS_TREE; g.min_hazards = 12; g.nkeys_hot = 4; gen_program(r, p, tier, g); }
-void gen_bron(Rng& r, Program& p, int tier, const std::string&) { GenCfg g; g.caps = CAPS_BRONSON; g.nkeys_hot = r.pick({5, 5, 8, 10}); g.nkeys_cold = 3; g.max_ops = r.pick({6, 6, 8}); gen_program(r, p, tier, g); }   // up to 15 keys: deeper trees, single and double rotations while readers traverse
-void gen_bronp(Rng& r, Program& p, int tier, const std::string&) { GenCfg g; g.caps = CAPS_BRONSON; g.nkeys_hot = r.pick({5, 5, 8, 10}); g.nkeys_cold = 3; g.max_ops = r.pick({6, 6, 8}); g.insert_forms = 1; gen_program(r, p, tier, g); }
+// "readers during rotations" shape (a quarter of the concurrent Bronson programs): one thread inserts absent keys (rotations), the
+// others look up keys that are present for the whole run, so any miss is an immediate linearizability violation
+static void readers_during_rotations(Rng& r, Program& p) {
+    const std::string& prop = current_prop(); if (prop == "C20" || prop == "C17" || p.threads.size() < 2 || !r.chance(250)) return;
+    int nkeys = (int)p.knob("keys"); long mask = p.knob("prefill_mask"); p.set("pre_erase_mask", 0);
+    std::vector<long> present, absent; for (int k = 1; k <= nkeys; k++) ((mask >> (k - 1)) & 1 ? present : absent).push_back(k);
+    if (present.size() < 2 || absent.size() < 2) return;
+    for (auto& t : p.threads) { t.ops.clear(); t.start_after = -1; } p.next_id = 0;
+    for (size_t i = 0; i < absent.size() && i < 7; i++) p.add(0, i % 3 == 2 ? UPDATE : INSERT, absent[(i * 3 + r.below(2)) % absent.size()], 0, r.below(3));
+    for (size_t t = 1; t < p.threads.size(); t++) for (int k = 0; k < 6; k++) p.add((int)t, r.chance(500) ? CONTAINS : FIND, present[r.below((int)present.size())]);
+}
+void gen_bron(Rng& r, Program& p, int tier, const std::string&) { GenCfg g; g.caps = CAPS_BRONSON; g.nkeys_hot = r.pick({5, 5, 8, 10}); g.nkeys_cold = 3; g.max_ops = r.pick({6, 6, 8}); gen_program(r, p, tier, g); readers_during_rotations(r, p); }   // up to 13 keys: deeper trees, single and double rotations while readers traverse
+void gen_bronp(Rng& r, Program& p, int tier, const std::string&) { GenCfg g; g.caps = CAPS_BRONSON; g.nkeys_hot = r.pick({5, 5, 8, 10}); g.nkeys_cold = 3; g.max_ops = r.pick({6, 6, 8}); g.insert_forms = 1; gen_program(r, p, tier, g); readers_during_rotations(r, p); }
 
 #define COMPT(f) "real: " f ", SMR; simulated: scheduler + faults, forced skip-list tower heights / eager reclamation; oracle: linearizability vs ordered key->instance map, relaxed interval oracle for extract_min/max, quiescent traversal / consistency checks / true AVL heights"
 #define SUBJ(var, NAME, T, GEN, F) typedef T T_##var; SM_SUBJECT(var, NAME, "C15,C18,C20", T_##var, GEN, COMPT(F))
